@@ -5,6 +5,7 @@ mod alpha;
 mod cli;
 mod cmp;
 mod core;
+mod hist;
 mod model;
 mod props;
 mod refm;
